@@ -50,6 +50,12 @@ class U:
         return id(self.node)
 
 
+class UF(U):
+    """a variable that holds the (still untested) outcome of a failure test: true means failed (pos) or ok (not pos)"""
+    def __init__(self, base, pos):
+        U.__init__(self, "flag+" if pos else "flag-", base.callee, base.node)
+
+
 OK, FAILED = "ok", "failed"
 
 
@@ -126,6 +132,30 @@ class ErrDomain:
             return "m:" + expr_str(e)
         return None
 
+    def _flag_of(self, e, s):
+        """if e is a comparison that tests a must-check result for failure: UF describing the boolean"""
+        e = strip(e, casts=True)
+        if e.get("kind") == "UnaryOperator" and e.get("opcode") == "!":
+            f = self._flag_of(kids(e)[0], s)
+            return UF(f, f.kind != "flag+") if f else None
+        if e.get("kind") == "BinaryOperator" and e.get("opcode") in ("==", "!=", "<", ">", "<=", ">="):
+            a, op, b = self._atom_parts(e)
+            for x, other, swapped in ((a, b, False), (b, a, True)):
+                key, u = self._subject_status(x, s)
+                if u is not None and not isinstance(u, UF):
+                    fw = self._failed_when(u, op, other, True, swapped)
+                    if fw is not None:
+                        return UF(u, fw)
+        if e.get("kind") == "BinaryOperator" and e.get("opcode") in ("||", "|"):
+            for c in kids(e):
+                f = self._flag_of(c, s)
+                if f is not None:
+                    return f
+        key = self.key_of(e)
+        if key and isinstance(s.get(key), UF):
+            return s[key]
+        return None
+
     def _call_kind(self, e):
         e = strip(e, casts=True)
         if e.get("kind") == "ConditionalOperator":
@@ -147,8 +177,14 @@ class ErrDomain:
             if s is None:
                 return None
             ck = self._call_kind(init[-1])
+            fl = None if ck else self._flag_of(init[-1], s)
             if ck:
                 s["v:" + vd["id"]] = U(ck[1], ck[0], ck[2])
+            elif fl is not None:
+                for c in walk(strip(init[-1])):
+                    if c.get("kind") == "CallExpr" and callee_name(c) in self.kinds:
+                        self.sites.append(c)
+                s["v:" + vd["id"]] = fl
             else:
                 src = self.key_of(init[-1])
                 if src and src in s:
@@ -182,8 +218,22 @@ class ErrDomain:
         if k in ("BinaryOperator", "CompoundAssignOperator") and e0.get("opcode", "").endswith("=") and \
                 e0.get("opcode") not in ("==", "!=", "<=", ">="):
             lhs, rhs = ks
-            s = self.eval(rhs, s, consumer="assign")
+            fl = self._flag_of(rhs, s) if e0.get("opcode") in ("=", "|=") else None
+            s = self.eval(rhs, s, consumer="assign" if fl is None else "flagged")
             lk = self.key_of(lhs)
+            if s is None:
+                return None
+            old = s.get(lk) if lk else None
+            if isinstance(old, U) and e0.get("opcode") == "=" and self._call_kind(rhs) is None and not (self.key_of(rhs) == lk):
+                self.report("CHK", e0, "the untested result of %s() (%s) is overwritten" % (old.callee, loc_str(old.node)))
+            if fl is not None and lk:
+                if e0.get("opcode") == "=" or not isinstance(old, U):
+                    s[lk] = fl
+                for c in walk(strip(rhs)):
+                    if c.get("kind") == "CallExpr" and callee_name(c) in self.kinds:
+                        self.sites.append(c)
+                self._kill(s, EFF.lvalue_root(strip(lhs))[0])
+                return s
             self._kill(s, EFF.lvalue_root(strip(lhs))[0])
             owner, fld = EFF.owner_field(strip(lhs))
             if owner == "assemblyline":
@@ -228,7 +278,7 @@ class ErrDomain:
         if k == "DeclRefExpr":
             key = self.key_of(e0)
             v = s.get(key) if key else None
-            if isinstance(v, U) and consumer != "return":
+            if isinstance(v, U) and consumer not in ("return", "flagged"):
                 self.report("CHK", e0, "result of %s() (%s) is used before it is compared with its failure value"
                             % (v.callee, loc_str(v.node)))
             elif v == FAILED and consumer in ("arg", "deref", "assign"):
@@ -249,7 +299,10 @@ class ErrDomain:
             self._kill(s, EFF.lvalue_root(strip(ks[0]))[0])
             return self.eval(ks[0], s, consumer="rw")
         for c in ks:
-            s = self.eval(c, s, consumer=consumer if k in ("ImplicitCastExpr", "ParenExpr", "CStyleCastExpr") else "operand")
+            sub = consumer if k in ("ImplicitCastExpr", "ParenExpr", "CStyleCastExpr") else "operand"
+            if consumer == "flagged" and k in ("BinaryOperator", "UnaryOperator"):
+                sub = "flagged"
+            s = self.eval(c, s, consumer=sub)
             if s is None:
                 return None
         return s
@@ -321,6 +374,15 @@ class ErrDomain:
         """does the atom being `truth` mean the call failed? None = not a valid check"""
         prog = self.prog
         kind = u.kind
+        if kind in ("flag+", "flag-"):
+            pos = kind == "flag+"
+            v = ConstEval(prog).try_eval(strip(other, casts=True)) if other is not None else None
+            if op == "truth":
+                return truth == pos
+            if op in ("==", "!=") and v is not None:
+                istrue = (v != 0) == (op == "==")      # atom true means flag is true?
+                return (truth == istrue) == pos
+            return None
         if swapped and op in ("<", ">", "<=", ">="):
             op = {"<": ">", ">": "<", "<=": ">=", ">=": "<="}[op]
         if kind == "null":
@@ -400,12 +462,19 @@ def internal_summaries(prog):
         if not rt.endswith("*"):
             continue
         vals = set()
+        nonconst = 0
         for m in walk(prog.body(f)):
             if m.get("kind") == "ReturnStmt" and kids(m):
                 if is_map_failed(prog, kids(m)[0]):
                     vals.add("mapfailed")
+                elif is_null(prog, kids(m)[0]):
+                    vals.add("null")
+                else:
+                    nonconst += 1
         if "mapfailed" in vals:
             out[name] = "mapfailed"
+        elif "null" in vals and nonconst and name != "asm_create_instance":
+            out[name] = "null"
     return out
 
 
@@ -684,3 +753,150 @@ def _loop_bound(prog, parents):
                     if v is not None:
                         return v + (1 if c["opcode"] == "<=" else 0)
     return None
+
+
+# --------------------------------------------------------------------------
+# PAIR: every acquired OS resource is released on every path (or handed to the caller)
+# --------------------------------------------------------------------------
+
+ACQUIRE = {"open": ("close", "neg"), "fopen": ("fclose", "null"), "fdopen": ("fclose", "null"),
+           "mmap": ("munmap", "mapfailed"), "malloc": ("free", "null"), "calloc": ("free", "null")}
+
+
+class ResDomain:
+    """state: {key: (acquire callee, call node, 'maybe'|'open')}"""
+
+    def __init__(self, prog, fname, f, acquire):
+        self.prog, self.fname, self.f = prog, fname, f
+        self.acq = acquire
+        self.rets = []
+        self.inner = ErrDomain(prog, fname, f, {}, lambda *a: None)
+
+    def copy(self, s): return dict(s)
+
+    def join(self, a, b):
+        out = dict(a)
+        for k, v in b.items():
+            if k not in out or out[k][2] == "maybe":
+                out[k] = v
+        return out
+
+    def equal(self, a, b): return a == b
+    def widen(self, o, n): return n
+
+    def key_of(self, e):
+        return self.inner.key_of(e)
+
+    def _acq(self, e):
+        e = strip(e, casts=True)
+        if e.get("kind") == "CallExpr" and callee_name(e) in self.acq:
+            return callee_name(e), e
+        return None
+
+    def decl(self, vd, s):
+        init = kids(vd)
+        if init:
+            s = self.eval(init[-1], s)
+            a = self._acq(init[-1])
+            if a:
+                s["v:" + vd["id"]] = (a[0], a[1], "maybe")
+        return s
+
+    def eval_cond(self, e, s): return self.eval(e, s)
+    def eval_ret(self, e, s): return self.eval(e, s)
+
+    def eval(self, e, s):
+        e0 = strip(e)
+        if not e0 or s is None:
+            return s
+        k, ks = e0.get("kind"), kids(e0)
+        if k == "BinaryOperator" and e0.get("opcode") == "=":
+            s = self.eval(ks[1], s)
+            lk = self.key_of(ks[0])
+            a = self._acq(ks[1])
+            if lk:
+                if a:
+                    s[lk] = (a[0], a[1], "maybe")
+                else:
+                    rk = self.key_of(ks[1])
+                    if rk and rk in s and rk != lk:
+                        s[lk] = s.pop(rk)       # ownership moves with the value
+                    elif is_map_failed(self.prog, ks[1]) or is_null(self.prog, ks[1]):
+                        pass                    # sentinel stored after the resource was released
+            return s
+        if k == "CallExpr":
+            cn = callee_name(e0)
+            for a in call_args(e0):
+                s = self.eval(a, s)
+            rel = {v[0] for v in self.acq.values()} if False else None
+            for a in call_args(e0):
+                key = self.key_of(a)
+                if key and key in s and self.acq.get(s[key][0], (None,))[0] == cn:
+                    del s[key]
+                elif key and key in s and cn in self.prog.functions:
+                    pass
+            if cn in ("exit", "_exit", "abort"):
+                return None
+            return s
+        for c in ks:
+            s = self.eval(c, s)
+            if s is None:
+                return None
+        return s
+
+    def assume(self, e, truth, s):
+        a, op, b = self.inner._atom_parts(e)
+        for x, other, swapped in ((a, b, False),) + (((b, a, True),) if b is not None else ()):
+            key = self.key_of(x)
+            if key and key in s:
+                cal, node, st = s[key]
+                u = U(self.acq[cal][1], cal, node)
+                failed = self.inner._failed_when(u, op, other, truth, swapped)
+                if failed is True:
+                    del s[key]
+                elif failed is False:
+                    s[key] = (cal, node, "open")
+                return s
+        return s
+
+    def ret(self, n, s):
+        self.rets.append((n, dict(s)))
+
+
+def pair_rule(chk, prog, fnames, rule="PAIR", units_prefix="src/"):
+    """every resource acquired in the function is released on every path to a return, unless the
+    function returns it or stores it into the instance"""
+    n = 0
+    for fn in fnames:
+        f = prog.fn(fn)
+        acq_here = sorted({callee_name(c) for c in walk(prog.body(f)) if c.get("kind") == "CallExpr" and callee_name(c) in ACQUIRE})
+        if not acq_here:
+            continue
+        dom = ResDomain(prog, fn, f, ACQUIRE)
+        end = Flow(dom).function(prog, f, {})
+        # resources stored into an object that outlives the call are not leaks
+        escapes = set()
+        for m in walk(prog.body(f)):
+            if m.get("kind") == "BinaryOperator" and m.get("opcode") == "=":
+                l = strip(kids(m)[0])
+                if l.get("kind") == "MemberExpr":
+                    rk = dom.key_of(kids(m)[1])
+                    if rk:
+                        escapes.add(rk)
+        leaks = {}
+        for r, s in dom.rets:
+            rk = dom.key_of(kids(r)[0]) if kids(r) else None
+            for k, (cal, node, st) in s.items():
+                if k == rk or k in escapes or k.startswith("m:"):
+                    continue
+                if st in ("open",) or (st == "maybe" and False):
+                    leaks.setdefault((cal, loc_str(node)), []).append(loc_str(r))
+        for cal in acq_here:
+            sites = [c for c in walk(prog.body(f)) if c.get("kind") == "CallExpr" and callee_name(c) == cal]
+            for c in sites:
+                n += 1
+                lk = leaks.get((cal, loc_str(c)))
+                chk.require(not lk, rule, "%s/%s/%s@%s" % (rule, fn, cal, loc_str(c)), loc_str(c),
+                            "what %s() acquired in %s is released by %s() on every path to a return (or handed on)" % (cal, fn, ACQUIRE[cal][0]),
+                            "still held at the return(s) at %s" % ", ".join(sorted(set(lk or []))))
+    return n
